@@ -143,7 +143,6 @@ pub mod num_bigint {
 }
 use num_bigint::*;
 pub type Number = BigInt;
-broadcast use {num_bigint::of_int_bi, num_bigint::bi_of_int};
 pub mod num_traits {
     use vstd::prelude::*;
     use super::num_bigint::*;
@@ -153,3 +152,11 @@ pub mod num_traits {
     impl One for BigInt { #[verifier::external_body] fn one() -> (r: BigInt) ensures bi(r) == 1 { unimplemented!() } }
 }
 use num_traits::{Zero, One};
+impl vstd::std_specs::convert::FromSpecImpl<i32> for num_bigint::BigInt {
+    open spec fn obeys_from_spec() -> bool { true }
+    open spec fn from_spec(v: i32) -> num_bigint::BigInt { num_bigint::of_int(v as int) }
+}
+impl From<i32> for num_bigint::BigInt { #[verifier::external_body] fn from(v: i32) -> num_bigint::BigInt { unimplemented!() } }
+// num_traits::zero::<BigInt>()
+#[verifier::external_body]
+pub fn zero() -> (r: num_bigint::BigInt) ensures num_bigint::bi(r) == 0 { unimplemented!() }
